@@ -27,6 +27,14 @@ pub fn def() -> PropertyDef {
 
 const JUNK: &[&str] = &["-/", "-/ x", "-/ garbage (((", ")", "end", "$", "\"open", "'ab'", "\u{0}", "| x", "ret 1", "x", "/- open", "-/ -/", "/- a -/ -/", "}", "\r", "#!", "`"];
 const IRREGULAR: &[&str] = &["-/", "$", "'ab'", "\"open", "/- open", "\u{0}", "?", "-/ -/ x"];
+/// Text that is irregular as code but harmless inside a comment: wrapped in `/- .. -/` (or after `--`) it must not change
+/// what is parsed — the whole file is still accounted for.
+const COMMENT_PROSE: &[&str] = &[
+    "340282366920938463463374607431768211456340282366920938463463374607431768211456",
+    "build 99999999999999999999999999999999999999999 done",
+    "1e99999999", "1.", ".5", "'ab'", "'", "$ # ` ?", "\u{0}", "\u{a0}\u{3000}\u{2028}", "\u{b}\u{85}", "+Ctor .dtor @[x]", "0x1F 1_000", "9" ,
+    "-1e400 +1e400", "\\", "end begin in that", "é λ 🙂 日本語",
+];
 
 fn seeds_count(cfg: &Cfg) -> (u64, u64, u64) {
     (e2::corpus().len() as u64, cfg.tier.pick(300, 6_000), cfg.tier.pick(100, 2_000))
@@ -170,6 +178,36 @@ fn run_insert(cfg: &Cfg, index: u64, stats: &mut Stats) {
             stats.cover("irregularities", irregular);
             if let Some(p) = judge(&t, stats) {
                 report(stats, "insert", index, &t, &format!("{:?} inserted before token {}", irregular, pos), p);
+            }
+        }
+        // prose inside comments: the file must still be parsed to its last code token
+        for prose in COMMENT_PROSE {
+            if !all && !rng.chance(1, 3) {
+                continue;
+            }
+            let wrapped = match rng.below(4) {
+                | 0 => format!("/- {} -/", prose),
+                | 1 => format!("/- a /- {} -/ b -/", prose),
+                | 2 => format!("/-\n  {}\n-/", prose),
+                | _ => format!("-- {}\n", prose),
+            };
+            let t = e2::mutate::with_gap_inserts(&text, &tokens, &[(pos, wrapped)]);
+            stats.cover("comment_prose", prose);
+            stats.count("comment_prose_cases");
+            match judge(&t, stats) {
+                | Some(p) => report(stats, "insert", index, &t, &format!("comment with {:?} inserted before token {}", prose, pos), p),
+                | None => {
+                    // … and it must still be accepted: the comment does not change the program
+                    if !matches!(e2::parse(&t), Ok(Ok(_))) {
+                        stats.violation(Violation {
+                            signature: "comment-content-changes-acceptance".into(),
+                            tags: vec![],
+                            generator: "insert".into(),
+                            index,
+                            detail: json!({"what": format!("comment with {:?} inserted before token {}", prose, pos), "text": t}),
+                        });
+                    }
+                }
             }
         }
     }
